@@ -220,3 +220,35 @@ case("c01-index-bytes", "break", ["C01"], [(PROF + "bidi.rs", "pub fn has_rtl(la
 case("c01-keep-match-before", "keep", ["C01"], [(CTX, "    if offset == 0 {\n        None\n    } else {\n        s.chars().nth(offset - 1)\n    }", "    match offset {\n        0 => None,\n        n => s.chars().nth(n - 1),\n    }")])
 case("c01-keep-checked-sub", "keep", ["C01"], [(CTX, "    if offset == 0 {\n        None\n    } else {\n        s.chars().nth(offset - 1)\n    }", "    let i = offset.checked_sub(1)?;\n    s.chars().nth(i)")])
 case("c01-keep-skip-nth", "keep", ["C01"], [(CTX, "fn after(s: &str, offset: usize) -> Option<char> {\n    s.chars().nth(offset + 1)", "fn after(s: &str, offset: usize) -> Option<char> {\n    s.chars().skip(offset).nth(1)")], "no arithmetic at all")
+
+# ------------------------------------------------------------------ C09
+BD = PROF + "bidi.rs"
+case("c09-ws-in-rtl", "break", ["C09"], [(BD, "            | BidiClass::ON\n            | BidiClass::BN => {}\n            BidiClass::AN => {", "            | BidiClass::ON\n            | BidiClass::WS\n            | BidiClass::BN => {}\n            BidiClass::AN => {")], "white space accepted inside RTL labels", expect_key=["outside-K"])
+case("c09-no-en-an-mix-check", "break", ["C09"], [(BD, "                if en {\n                    // rule 4.\n                    // if an `EN` is present, no `AN` may be present\n                    return false;\n                }\n", "")], "AN after EN accepted (EN after AN still rejected)", expect_key=["outside-K"])
+case("c09-has-rtl-without-an", "break", ["C09"], [(BD, "matches!(bidi_class(c), BidiClass::R | BidiClass::AL | BidiClass::AN)", "matches!(bidi_class(c), BidiClass::R | BidiClass::AL)")], "an LTR label containing only AN digits skips the rule", expect_key=["has-rtl"])
+case("c09-es-ends-rtl", "break", ["C09"], [(BD, "    nsm || matches!(\n        prev,\n        BidiClass::R | BidiClass::AL | BidiClass::EN | BidiClass::AN\n    )", "    nsm || matches!(\n        prev,\n        BidiClass::R | BidiClass::AL | BidiClass::EN | BidiClass::AN | BidiClass::ES\n    )")], expect_key=["outside-K"])
+case("c09-default-r", "break", ["C09"], [(BD, "        Err(_) => BidiClass::L,", "        Err(_) => BidiClass::R,")], "unlisted code points treated as R", expect_key=["lookup"])
+case("c09-first-an", "break", ["C09"], [(BD, "        if matches!(first, BidiClass::R | BidiClass::AL) {", "        if matches!(first, BidiClass::R | BidiClass::AL | BidiClass::AN) {")], "a label may start with an Arabic-Indic digit", expect_key=["outside-K"])
+case("c09-wrapper-modifies", "break", ["C09", "C04"], [(U, "        bidi::satisfy_bidi_rule(&s)\n            .then_some(s)\n            .ok_or(Error::Invalid)", "        bidi::satisfy_bidi_rule(&s)\n            .then_some(s)\n            .ok_or(Error::Unexpected(UnexpectedError::Undefined))")], "wrong error for a bidi violation", expect_key=["wrapper"])
+case("c09-keep-if-chain", "keep", ["C09"], [(BD, """        if matches!(first, BidiClass::R | BidiClass::AL) {
+            // this is a `RTL` label
+            is_valid_rtl_label(it, first)
+        } else if first == BidiClass::L {
+            // this is a `LTR` label
+            is_valid_ltr_label(it, first)
+        } else {
+            // char no in [`L`, `R` or `AL`]
+            false
+        }""", """        match first {
+            BidiClass::L => is_valid_ltr_label(it, first),
+            BidiClass::R | BidiClass::AL => is_valid_rtl_label(it, first),
+            _ => false,
+        }""")], "dispatch written as a match")
+case("c09-keep-ltr-flag-order", "keep", ["C09"], [(BD, """                if !matches!(prev, BidiClass::L | BidiClass::EN) {
+                    // char not in L or EN
+                    return false;
+                }
+                nsm = true;""", """                nsm = true;
+                if prev != BidiClass::L && prev != BidiClass::EN {
+                    return false;
+                }""")], "flag set before the test; same language")
